@@ -492,7 +492,7 @@ func (rw *rewriter) selectStmt(s *ast.SelectStmt) ast.Stmt {
 		var head []ast.Stmt
 		switch cm := cc.Comm.(type) {
 		case *ast.SendStmt:
-			pre = append(pre, &ast.ExprStmt{X: call(sel(vrtName, "CaseSend"), ast.NewIdent(sv), cm.Chan, cm.Value)})
+			pre = append(pre, &ast.ExprStmt{X: method(cm.Chan, "CaseSendOn", ast.NewIdent(sv), cm.Value)})
 		case *ast.ExprStmt:
 			u, ok := unparen(cm.X).(*ast.UnaryExpr)
 			if !ok || u.Op != token.ARROW {
